@@ -683,6 +683,33 @@ Section AcceptProofs.
     - apply Nn, V1, Hu.
     - apply Nn. eapply V2; eassumption.
   Qed.
+  (* RemoveCompVar: the variable n of component i is removed while the component still uses it - directly, or only
+     INDIRECTLY through another variable it resolves (label: part-%(chunk)s after chunk was removed) - and there is no
+     global variable of that name.  What the OTHER components define does not matter: variables of a component are
+     private to it (a sibling of the same stage that defines n does not make it defined) *)
+  Lemma complete_remove_comp_var w i n c :
+    nth_error (w_comps w) i = Some c -> ~ In n (map fst (w_gvars w)) ->
+    (In n (c_uses c) \/
+     exists v rs, In (v, rs) (env_of (mutate (RemoveCompVar i n) w) (set_vars (drop_var n) c)) /\ In n rs) ->
+    accept cs (mutate (RemoveCompVar i n) w) = false.
+  Proof.
+    intros Hi Ng Hu.
+    destruct (accept cs _) eqn:A; [|reflexivity]. exfalso.
+    destruct (accept_sound _ A) as [_ [_ [_ [V _]]]].
+    set (c' := set_vars (drop_var n) c) in *.
+    assert (Ic : In c' (w_comps (mutate (RemoveCompVar i n) w))) by (cbn [mutate w_comps]; apply upd_nth_In; exact Hi).
+    destruct (V c' Ic) as [V1 [V2 _]].
+    assert (Nn : ~ In n (map fst (env_of (mutate (RemoveCompVar i n) w) c'))).
+    { unfold env_of; cbn [mutate w_gvars]. rewrite map_app, map_map. cbn [fst]. intros I.
+      apply in_app_or in I as [I | I].
+      - cbn [c' set_vars c_vars] in I. apply in_map_iff in I as [[n' rs] [E I]]. cbn in E; subst n'.
+        apply filter_In in I as [_ I]. cbn in I. rewrite String.eqb_refl in I. discriminate.
+      - apply in_map_iff in I as [[n' rs] [E I]]. cbn in E; subst n'.
+        apply filter_In in I as [I _]. apply Ng. apply in_map_iff. exists (n, rs). split; [reflexivity | exact I]. }
+    destruct Hu as [Hu | [v [rs [H1 H2]]]].
+    - apply Nn, V1. exact Hu.
+    - apply Nn. eapply V2; eassumption.
+  Qed.
   (* ---------------------------------------------------------------- CyclicVars: a mention that closes a cycle *)
   Lemma accept_gvars w : accept cs w = true -> gvars_acyclic w = true.
   Proof. unfold accept. intros H. apply andb_prop in H as [_ H]. exact H. Qed.
@@ -913,6 +940,11 @@ Section Complete.
     | CyclicVars (Some i) a b =>    (* the variable a of component i now mentions b, which depends on a there *)
         exists c rs, nth_error (w_comps w) i = Some c /\ In (a, rs) (c_vars c) /\
                      (b = a \/ clos_trans string (var_edge w c) a b)
+    | RemoveCompVar i n =>          (* no global is called n, and component i still uses n: directly, or INDIRECTLY
+                                       through a variable it resolves (whatever its siblings define) *)
+        exists c, nth_error (w_comps w) i = Some c /\ ~ In n (map fst (w_gvars w)) /\
+                  (In n (c_uses c) \/
+                   exists v rs, In (v, rs) (env_of (mutate (RemoveCompVar i n) w) (set_vars (drop_var n) c)) /\ In n rs)
     end.
 
   Theorem complete m w : accept cs w = true -> applicable m w -> accept cs (mutate m w) = false.
@@ -932,5 +964,20 @@ Section Complete.
       + destruct H as [[Ia [Ib Hp]] | [c [rs [Ic [Ia [Ns [Gb Hp]]]]]]].
         * apply complete_cyclic_gvars; assumption.
         * eapply complete_cyclic_gsees; eassumption.
+    - destruct H as [c [Hi [Ng Hu]]]. eapply complete_remove_comp_var; eassumption.
+  Qed.
+
+  (* the instance that a loader which resolves a component with a context shared with its siblings gets wrong: the
+     removed variable n of component i is used ONLY by another variable v of the same component; every other
+     component of the workflow - in particular a sibling of the same stage - may define n *)
+  Lemma remove_comp_var_indirect w i c n v rs :
+    accept cs w = true -> nth_error (w_comps w) i = Some c -> ~ In n (map fst (w_gvars w)) ->
+    In (v, rs) (c_vars c) -> v <> n -> In n rs ->
+    accept cs (mutate (RemoveCompVar i n) w) = false.
+  Proof.
+    intros A Hi Ng Iv Nv In_. apply complete; [exact A|]. cbn [applicable].
+    exists c. split; [exact Hi|]. split; [exact Ng|]. right. exists v, rs. split; [|exact In_].
+    unfold env_of. apply in_or_app; left. cbn [set_vars c_vars]. unfold drop_var. apply filter_In.
+    split; [exact Iv|]. cbn [fst]. apply negb_true_iff. apply String.eqb_neq. congruence.
   Qed.
 End Complete.
